@@ -26,41 +26,43 @@ extern u64 g_sched_at;
 void recompute_horizon();
 
 // ------------------------------------------------------------------------------------------ race report capture
-struct RaceRep { std::string desc; std::string where[2]; int write[2]; int tid[2]; };
-static std::vector<RaceRep> g_races;
-static u64 g_race_count = 0;
+// The hook runs inside ThreadSanitizer's report path: it must not allocate or free (a free of memory last touched
+// by another fiber would itself be reported and deadlock on TSan's report mutex). Fixed-size storage only.
+struct RaceRep { char desc[64]; char where[2][200]; int write[2]; int tid[2]; bool library; };
+static RaceRep g_races[8];
+static unsigned g_nraces = 0;
+static u64 g_race_count = 0, g_harness_reports = 0;
 
 } // namespace sim
 
 #ifdef GRSIM_TSAN_BUILD
 extern "C" NOTSAN void __tsan_on_report(void *rep) {
     using namespace sim;
-    ++g_race_count;
-    if (g_races.size() >= 8) return;
-    ++g_incallback;
     const char *desc = 0; int count, stack_count, mop_count = 0, loc_count, mutex_count, thread_count, unique; void *sleep[1];
     __tsan_get_report_data(rep, &desc, &count, &stack_count, &mop_count, &loc_count, &mutex_count, &thread_count, &unique, sleep, 1);
-    RaceRep r; r.desc = desc ? desc : "?"; r.write[0] = r.write[1] = 0; r.tid[0] = r.tid[1] = -1;
+    RaceRep r; memset(&r, 0, sizeof r); snprintf(r.desc, sizeof r.desc, "%s", desc ? desc : "?"); r.tid[0] = r.tid[1] = -1; r.library = false;
     for (int i = 0; i < mop_count && i < 2; ++i) {
         int tid = 0, size = 0, write = 0, atomic = 0; void *addr = 0; void *trace[16] = {0};
         __tsan_get_report_mop(rep, (unsigned long)i, &tid, &addr, &size, &write, &atomic, trace, 16);
         r.write[i] = write; r.tid[i] = tid;
-        std::string w;
+        snprintf(r.where[i], sizeof r.where[i], "?");
         for (int k = 0; k < 16 && trace[k]; ++k) {
-            char buf[512] = {0};
+            char buf[512]; buf[0] = 0;
             __sanitizer_symbolize_pc(trace[k], "%f %s:%l", buf, sizeof buf);
-            std::string s = buf;
-            if (s.find("/verif/sim/") != std::string::npos) continue;
-            // keep function name and file:line of the innermost library frame
-            size_t sp = s.rfind(' '); std::string fn = s.substr(0, sp == std::string::npos ? s.size() : sp), loc = sp == std::string::npos ? "" : s.substr(sp + 1);
-            size_t sl = loc.rfind('/'); if (sl != std::string::npos) loc = loc.substr(sl + 1);
-            size_t par = fn.find('('); if (par != std::string::npos) fn = fn.substr(0, par);
-            w = fn + "@" + loc; break;
+            // innermost frame that lies in the library's sources
+            const char *src = strstr(buf, "/src/"); const char *inc = strstr(buf, "/include/graphite2/");
+            if (strstr(buf, "/verif/sim/") || (!src && !inc)) continue;
+            r.library = true;
+            char *sp = strrchr(buf, ' '); const char *loc = sp ? sp + 1 : ""; if (sp) *sp = 0;
+            const char *sl = strrchr(loc, '/'); if (sl) loc = sl + 1;
+            char *par = strchr(buf, '('); if (par) *par = 0;
+            snprintf(r.where[i], sizeof r.where[i], "%s@%s", buf, loc);
+            break;
         }
-        r.where[i] = w.empty() ? "?" : w;
     }
-    g_races.push_back(r);
-    --g_incallback;
+    if (!r.library) { ++g_harness_reports; return; }     // no library frame in either access: harness memory (e.g. a free), not the property
+    ++g_race_count;
+    if (g_nraces < 8) g_races[g_nraces++] = r;
 }
 #endif
 
@@ -207,7 +209,7 @@ static void run_conc_impl(const Plan &p, bool negctl) {
     for (auto *op : setup) { OpResult r = w.exec(*op); if (op->kind == "make_face" && !(r.v.size() && r.v[0])) return; }
     FaceObj &face = w.faces[0];
     const u64 gets0 = face.store->gets, rel0 = face.store->releases;
-    g_world = &w; g_races.clear(); g_race_count = 0; g_switches = 0;
+    g_world = &w; g_nraces = 0; g_race_count = 0; g_harness_reports = 0; g_switches = 0;
     g_skind = int(p.sched.size() > 0 ? p.sched[0] : 0); g_sparam = u64(p.sched.size() > 1 ? p.sched[1] : 30); if (!g_sparam) g_sparam = 1;
     g_srng = Rng(u64(p.sched.size() > 2 ? p.sched[2] : 1));
     std::set<u64> sites; g_sites = &sites;
@@ -242,6 +244,7 @@ static void run_conc_impl(const Plan &p, bool negctl) {
     }
     g_sched_hook = 0; g_sched_at = ~0ull; recompute_horizon();
     g_sites = 0;
+    if (g_harness_reports) probe("conc:harness-only-reports-ignored", g_harness_reports);
     probe("conc:runs"); probe("conc:switches", g_switches); probe("conc:preemption-sites", sites.size());
     maxstat("conc:switches-per-run", g_switches);
     // oracles
@@ -249,7 +252,7 @@ static void run_conc_impl(const Plan &p, bool negctl) {
     else {
         if (g_race_count) {
             const RaceRep &r = g_races[0];
-            violation("C09:data-race:" + r.where[0], strf("ThreadSanitizer: %s between fiber %d (%s at %s) and fiber %d (%s at %s); %llu report(s) in this run", r.desc.c_str(), r.tid[0], r.write[0] ? "write" : "read", r.where[0].c_str(), r.tid[1], r.write[1] ? "write" : "read", r.where[1].c_str(), (unsigned long long)g_race_count));
+            violation(std::string("C09:data-race:") + r.where[0], strf("ThreadSanitizer: %s between fiber %d (%s at %s) and fiber %d (%s at %s); %llu report(s) in this run", r.desc, r.tid[0], r.write[0] ? "write" : "read", r.where[0], r.tid[1], r.write[1] ? "write" : "read", r.where[1], (unsigned long long)g_race_count));
         }
         if (face.store->gets != gets0 || face.store->releases != rel0)
             violation("C09:table-callback", strf("%llu get_table / %llu release_table call(s) while workers ran on a preloadAll face", (unsigned long long)(face.store->gets - gets0), (unsigned long long)(face.store->releases - rel0)));
